@@ -8,6 +8,7 @@ pub mod c07;
 pub mod c09;
 pub mod c10;
 pub mod c11;
+pub mod c12;
 pub mod c13;
 pub mod c14;
 pub mod c15;
@@ -27,6 +28,7 @@ pub fn run(prop: &str, tier: Tier) -> Report {
         "C09" => c09::run(tier),
         "C10" => c10::run(tier),
         "C11" => c11::run(tier),
+        "C12" => c12::run(tier),
         "C13" => c13::run(tier),
         "C14" => c14::run(tier),
         "C15" => c15::run(tier),
@@ -51,6 +53,7 @@ pub fn replay(prop: &str, _tier: Tier, case: &serde_json::Value) -> Vec<Violatio
         "C09" => c09::replay(case),
         "C10" => c10::replay(case),
         "C11" => c11::replay(case),
+        "C12" => c12::replay(case),
         "C13" => c13::replay(case),
         "C14" => c14::replay(case),
         "C15" => c15::replay(case),
@@ -67,6 +70,7 @@ pub fn worker(prop: &str, tier: Tier, args: &[String]) -> i32 {
     match prop {
         "C03" => crate::pool::child(&c03::C03, tier, args),
         "C04" => crate::pool::child(&c04::C04, tier, args),
+        "C12" => crate::pool::child(&c12::C12, tier, args),
         _ => {
             eprintln!("unknown pooled property {prop}");
             2
